@@ -431,7 +431,7 @@ func c04Run(r *mon.Run) {
 		"meanci-empty", "meanci-c<=0", "meanci-infinite", "meanci-regular", "one-sample-zero-variance", "meanci-tiny-c", "meanci-c-near-1")
 	tests := []string{"two", "welch", "paired", "one"}
 	kinds := []string{"sample", "stream", "struct"}
-	r.Parallel("tests", r.Pick(6000, 60000), func(w *mon.W, i int) {
+	r.Parallel("tests", r.Pick(24000, 200000), func(w *mon.W, i int) {
 		rng := w.Rng
 		test := tests[i%4]
 		c := c04Case{Test: test, Kind: kinds[(i/4)%3]}
@@ -571,7 +571,7 @@ func c04Run(r *mon.Run) {
 		w.Distinct(mon.NewHasher().S("err").S(test).S(c.Kind).Fs(c.X1).Fs(c.X2).Sum())
 		c04Judge(w, c)
 	})
-	r.Parallel("meanci", r.Pick(3000, 30000), func(w *mon.W, i int) {
+	r.Parallel("meanci", r.Pick(10000, 80000), func(w *mon.W, i int) {
 		rng := w.Rng
 		c := c04Case{Test: "meanci", Kind: []string{"slice", "sample"}[i%2]}
 		n := rng.Range(2, 40)
